@@ -365,6 +365,14 @@ func c18GridCases(tier string) []c18GridCase {
 			}
 		}
 	}
+	// very large stakes (a validator's power times 65535 no longer fits 64 bits): clear majorities only, so that the
+	// 16-bit normalisation cannot matter
+	for _, u := range []int64{100_000_000_000_000, 1_000_000_000_000_000} {
+		add([]int64{3 * u, u, u}, []bool{true, false, false})
+		add([]int64{u, 3 * u, u}, []bool{true, false, false})
+		add([]int64{2 * u, 2 * u, 5 * u}, []bool{true, true, false})
+		add([]int64{6 * u, 2 * u, u, u}, []bool{true, false, false, false})
+	}
 	return out
 }
 
